@@ -57,3 +57,37 @@ func VerifParseTotal() {
 	rt.Reach("parsed")
 	rt.Assert(rt.Or(err == nil, err != nil), "parser returned")
 }
+
+// vLexemes: the pieces queries are made of; a sequence of them reaches the structural corners of
+// the grammar (unbalanced parentheses, empty in-lists, dangling operators, ranges, quotes,
+// escapes, pipes) that a few arbitrary bytes cannot spell.
+var vLexemes = []string{
+	"k:a", "t:a", "m:a", "e:a", " ", "(", ")", "not ", " and ", " or ", "in(", ",", "\"", "'", "*", ":", "[", "]", "{", "}",
+	" to ", "1", "-", "\\", "|", " fields ", " except ", "k", "_exists_:", "a",
+}
+
+// VerifParseTotalLexemes: totality on every sequence of up to LEXEMES lexemes, each followed by
+// nothing or by one symbolic byte.
+func VerifParseTotalLexemes() {
+	n := 1 + rt.Choose(rt.Param("LEXEMES"))
+	q := ""
+	for i := 0; i < n; i++ {
+		q += vLexemes[rt.Choose(len(vLexemes))]
+	}
+	if rt.Param("TAILBYTE") == 1 && rt.Choose(2) == 1 {
+		q += string(rt.NondetBytes(1))
+	}
+	legacy := rt.Choose(2) == 1
+	var mapping seq.Mapping
+	if rt.Choose(2) == 1 {
+		mapping = vMapping()
+	}
+	var err error
+	if legacy {
+		_, err = ParseQuery(q, mapping)
+	} else {
+		_, err = ParseSeqQL(q, mapping)
+	}
+	rt.Reach("parsed")
+	rt.Assert(rt.Or(err == nil, err != nil), "parser returned")
+}
